@@ -121,9 +121,9 @@ def run_real(S, case, chooser):
 
 
 def oracle(case, res, obs):
-    bad = []
+    bad = ["logging changed process-wide state: %s" % c for c in getattr(res, "state_changes", [])]
     if res.deadlock:
-        return ["threads deadlocked at %s" % sorted(res.deadlock.items())]
+        return bad + ["threads deadlocked at %s" % sorted(res.deadlock.items())]
     if obs["errors"]:
         bad.append("send / add raised: %s" % obs["errors"])
     logged = [k for ids in case["loggers"] for k in ids]
